@@ -197,8 +197,8 @@ def run_vpath_int(rng, n, res):
 
 def shard(shard, nshards, rng, tier, extra):
     res = Result()
-    run_cases([gen(rng) for _ in range((5000 if tier == 'quick' else 120000) // nshards)], res)
-    run_vpath_int(rng, (300 if tier == 'quick' else 8000) // nshards, res)
+    run_cases([gen(rng) for _ in range((15000 if tier == 'quick' else 120000) // nshards)], res)
+    run_vpath_int(rng, (900 if tier == 'quick' else 8000) // nshards, res)
     return res
 
 def run(seed, tier):
